@@ -2,6 +2,7 @@
    API, graphs as nodes) and the options of 1-3 consecutive Compiles of the outermost one. -/
 import EinoV.Oracle.C20Parse
 import EinoV.Model.C20Wf
+import EinoV.Model.C20Nest
 import EinoV.Expected.C20
 
 namespace EinoV.Oracle.C20Decl
@@ -32,6 +33,24 @@ def optState (c : Json) : Option Nat :=
   | .ok v => v.getNat?.toOption
   | .error _ => none
 
+/-- a Chain declaration (`NewChain[I,O]().AppendLambda(…).AppendPassthrough(…)`): the calls
+    `Chain.addNode` makes on its graph at once – `addNode(node_i)`, `AddEdge(previous, node_i)` –
+    and the END edge `Chain.compile` adds the first time it is called (`addEndIfNeeded`) -/
+def chainCalls (nodes : List Json) : JE (List Op × List Op) := do
+  let rec go (js : List Json) (i : Nat) (prev : Key) (acc : List Op) : JE (List Op × Key) := do
+    match js with
+    | [] => pure (acc, prev)
+    | j :: rest =>
+      let key := s!"node_{i}"
+      let pt := J.boolD j "pt" false
+      let ti ← if pt then pure Ty.any else parseTy (← J.str j "in")
+      let to ← if pt then pure Ty.any else parseTy (← J.str j "out")
+      let n : Op := .node { key, passthrough := pt, inTy := ti, outTy := to, pre := none, post := none,
+                            nodeKeyOpt := false }
+      go rest (i + 1) key (acc ++ [n, .edge prev key false false none])
+  let (ops, last) ← go nodes 0 START []
+  pure (ops, if nodes.isEmpty then [] else [.edge last END false false none])
+
 mutual
 partial def parseDecl (j : Json) : JE Decl := do
   let inT ← parseTy (← J.str j "inT")
@@ -44,6 +63,9 @@ partial def parseDecl (j : Json) : JE Decl := do
       pure ({ src := (← J.str b "s"), ty := (← parseTy (← J.str b "t")), ends := (← J.strList b "ends") } : WfBranch)
     let d : WfDecl := { inT, outT, stateTy := optState j, nodes, endIns, branches }
     pure (d.lower Expected.C20.wfBranchEndsChecked)
+  | "chain" =>
+    let (ops, once) ← chainCalls (J.arrD j "nodes")
+    pure (.mk .chain inT outT (optState j) (DOps.ofList ops) [] once none)
   | _ =>
     let ops ← parseDOps (J.arrD j "ops")
     pure (.mk .graph inT outT (optState j) ops [] [] none)
@@ -135,6 +157,11 @@ partial def possible (E : Env) (j : Json) (co : COpts) : JE (Bool × Bool) := do
     let outs := orders.map fun o =>
       (attempt E r.1 (d.branchOps ++ d.inputOpsBy o) (d.guard Expected.C20.wfBranchEndsChecked) co allOk).2.isOk
     pure (outs.any id && kids.all (·.1), outs.any (!·) || kids.any (·.2))
+  | "chain" =>
+    let (ops, once) ← chainCalls (J.arrD j "nodes")
+    let r := DOps.build E (DOps.ofList ops) (Builder.new .chain inT outT (optState j))
+    let ok := (attempt E r.1 once none co []).2.isOk
+    pure (ok, !ok)
   | _ =>
     let ojs := J.arrD j "ops"
     let ops ← parseDOps ojs
@@ -143,6 +170,63 @@ partial def possible (E : Env) (j : Json) (co : COpts) : JE (Bool × Bool) := do
     let r := DOps.build E ops (Builder.new .graph inT outT (optState j))
     let ok := (attempt E r.1 [] none co (List.replicate r.2.length Outcome.ok)).2.isOk
     pure (ok && kids.all (·.1), !ok || kids.any (·.2))
+
+/-! ## calls after the Compiles: Add* on the graphs of the tree, further Compiles -/
+
+def parsePath (j : Json) : List Key :=
+  (J.arrD j "path").filterMap (fun x => match x with | .str s => some s | _ => none)
+
+def pathGet (st : List (List Key × Builder)) (p : List Key) : Option Builder :=
+  match st with
+  | [] => none
+  | (q, b) :: r => if q = p then some b else pathGet r p
+
+def pathSet (st : List (List Key × Builder)) (p : List Key) (b : Builder) : List (List Key × Builder) :=
+  (p, b) :: st.filter (fun x => x.1 != p)
+
+/-- answers for the `mods` (a later call each, on the graph at `path`) and the `recompiles` of a
+    tree one of whose Compiles succeeded (every graph in it is frozen, `nested_graphs_frozen`) -/
+def later (E : Env) (d : Decl) (cos : List COpts) (mods : List Json) (recos : List COpts) :
+    JE (List String × List (Outcome × Bool)) := do
+  let top := match cos with | co :: _ => co | [] => { trigger := .unset, maxSteps := 0, getState := false }
+  let bTop := d.afterCompiles E cos
+  let mut st : List (List Key × Builder) := [([], bTop)]
+  let mut poison : List (List Key) := []
+  let mut answers : List String := []
+  for m in mods do
+    let path := parsePath m
+    let op ← m.getObjVal? "op"
+    match Decl.subAt E path d top with
+    | none => answers := answers ++ ["nopath"]
+    | some (g, gco) =>
+      let b := match pathGet st path with
+        | some b => b
+        | none => (Decl.firstB E g gco).1
+      match J.strD op "op" "" with
+      | "wfnode" =>
+        -- Workflow.Add…Node(key)[.AddInput(from)…]: nothing is returned; on the frozen graph the
+        -- node is refused and the recorded inputs make every later Compile of this Workflow fail
+        let n : Op := .node { key := (← J.str op "key"), passthrough := J.boolD op "pt" false,
+                              inTy := .any, outTy := .any, pre := none, post := none, nodeKeyOpt := false }
+        let r := stepK E b n
+        st := pathSet st path r.1
+        if r.2.1 == .compiled && !(J.arrD op "ins").isEmpty then poison := path :: poison
+        answers := answers ++ [if r.2.1 == .compiled then "silent" else "unfrozen"]
+      | "append" =>
+        answers := answers ++ [if b.compiled then "silent" else "unfrozen"]
+      | _ =>
+        let o ← parseOp op
+        let r := stepK E b o
+        st := pathSet st path r.1
+        answers := answers ++ [outcomeStr r.2.1]
+  let isPoison := fun p => poison.contains p
+  let mut b := (pathGet st []).getD bTop
+  let mut res : List (Outcome × Bool) := []
+  for co in recos do
+    let r := Decl.againTop E isPoison b d co
+    b := r.1
+    res := res ++ [(r.2.1, r.2.2)]
+  pure (answers, res)
 
 def handle (c : Json) : JE Json := do
   let im ← parseImpl c
@@ -155,9 +239,26 @@ def handle (c : Json) : JE Json := do
       dedup ((DOps.subs E ops (Builder.new cmp i o st)).flatMap (fun p => admissibleFirst E p.1 p.2))
   let poss ← cos.mapM (possible E (← c.getObjVal? "decl"))
   let sensitive := poss.any (fun p => p.1 && p.2)
-  pure <| Json.mkObj [
+  let mods := J.arrD c "mods"
+  let recos := (J.arrD c "recompiles").map parseCOpts
+  let base := [
     ("sensitive", Json.bool sensitive),
     ("out", J.mkStrs (res.map (fun r => outcomeStr r.1))),
     ("kinds", J.mkArr (res.map (fun r => J.mkStrs (if r.2 then kidKinds else [kindName r.1]))))]
+  if mods.isEmpty && recos.isEmpty then return Json.mkObj base
+  -- which graphs a failed Compile got to depends on the order Go's map visits the sub-graph
+  -- nodes in: the later calls are predicted only when some Compile succeeded
+  if !(res.any (fun r => r.1.isOk)) then
+    return Json.mkObj (base ++ [("laterSkip", Json.bool true)])
+  let (answers, re) ← later E d cos mods recos
+  pure <| Json.mkObj (base ++ [
+    ("laterSkip", Json.bool false),
+    ("mods", J.mkStrs answers),
+    ("reout", J.mkStrs (re.map (fun r => outcomeStr r.1))),
+    -- a poisoned Workflow answers ErrGraphCompiled the first time its recorded input is replayed;
+    -- from then on `checkAndAddMappedPath` (C15, not modelled) may refuse the replay first
+    ("rekinds", J.mkArr (re.zipIdx.map (fun (r, i) =>
+      J.mkStrs (if r.1 == .compiled then (if i == 0 then ["compiled"] else ["compiled", "build"])
+                else [kindName r.1]))))])
 
 end EinoV.Oracle.C20Decl
